@@ -119,7 +119,9 @@ func Pinned(t *testing.T, prop string, replay func(cf *evid.CaseFile) error) {
 		if err != nil {
 			t.Fatalf("pinned case %s unreadable: %v", p, err)
 		}
+		evid.InflightFile(prop, "pinned", cf)
 		rerr := replay(cf)
+		evid.ClearInflight(prop, "pinned")
 		evid.Note("pinned_cases_run", 1)
 		switch {
 		case rerr == nil:
